@@ -102,6 +102,9 @@ def translation(ctx):
                             nontrivial=a1 is not None and a2 is not None)
                     break
     ctx.floor('C02.5', 8, 'coordinate translations')
+    # the translation itself is exact (shared with C14.4)
+    from .. import sanitiser
+    sanitiser.check(ctx, 'C02.5')
 
 
 KIND_MIN = ('min', 'start', 'lower')
